@@ -685,6 +685,10 @@ func isScheduledIssuanceAddress(a factom.FAAddress) bool {
 // transaction is rolled back, the same process applies the block again). Heights: (a) every 4th, (b) every
 // other 4th, one of the two at every activation and snapshot height. Whatever the daemon keeps in memory must not
 // make a later attempt differ from a first one. Returns the function that removes the hooks.
+// retriesHistoryFocus: half of the failing statements are chosen among the block's history writes (set by the
+// "history-faults" feature of C17's runs).
+var retriesHistoryFocus bool
+
 func installRetries(n *harness.Node, r *orch.Result, seed int64, e forge.Eras) func() {
 	special := map[uint32]bool{}
 	for _, a := range []uint32{e.GradingV2, e.TxConv, e.PEGPricing, e.OneWaypFCT, e.ConversionLimit, e.V4, e.V20, e.V20Dev, e.V202, e.V204, e.V204Burn, e.PIP10} {
@@ -694,6 +698,9 @@ func installRetries(n *harness.Node, r *orch.Result, seed int64, e forge.Eras) f
 	failedDB := map[uint32]bool{}
 	failedUp := map[uint32]bool{}
 	pick := func(h uint32, k int64) bool {
+		if retriesHistoryFocus && h >= e.V20 && h%144 == 0 && h != e.V20Dev && h != e.V202 {
+			return k == 0 // the payout rows of every snapshot block are written twice
+		}
 		if special[h] || (h >= e.V20 && h%144 == 0) {
 			// one kind of failure per height (a second failure could repair what the first one broke):
 			// which one is decided by seed and height
@@ -714,7 +721,52 @@ func installRetries(n *harness.Node, r *orch.Result, seed int64, e forge.Eras) f
 		}
 		return harness.Fault{}
 	})
+	// the failing statement is not always the last one: the t-th statement of the block's transaction fails, t drawn
+	// from the height (if the block has fewer, the last one fails as above): the rollback may come at any point of a
+	// block. (The two burn-zeroing activation heights keep to the last statement: they hold the recorded
+	// NullifyBurnAddress finding, which C10 enumerates.)
+	var nextH uint32
+	stmtN, histN := 0, 0
 	vdriver.Set(&vdriver.Hooks{Decide: func(ev *vdriver.Event) (vdriver.Action, time.Duration) {
+		if ev.Kind == vdriver.KBegin {
+			mu.Lock()
+			stmtN, histN = 0, 0
+			mu.Unlock()
+			return vdriver.Proceed, 0
+		}
+		if ev.InTx && (ev.Kind == vdriver.KExec || ev.Kind == vdriver.KQuery) && !strings.HasPrefix(ev.SQL, "REPLACE INTO pn_metadata") {
+			mu.Lock()
+			stmtN++
+			isHist := strings.Contains(ev.SQL, "pn_history_")
+			if isHist {
+				histN++
+			}
+			h := nextH
+			if retriesHistoryFocus && isHist && h != 0 && h != e.V20Dev && h != e.V202 && pick(h, 0) && !failedDB[h] && ((uint64(h)*40503>>3)%2 == 0 || (h >= e.V20 && h%144 == 0)) {
+				// (C17's runs) the failing statement is one of the block's history writes: the j-th
+				if histN == 1+int((uint64(h)*2654435761>>7+uint64(seed)*3)%12) {
+					failedDB[h] = true
+					mu.Unlock()
+					r.Count("blocks_applied_twice_after_a_failed_history_write", 1)
+					return vdriver.FailInstead, 0
+				}
+			}
+			if h != 0 && h != e.V20Dev && h != e.V202 && pick(h, 0) && !failedDB[h] {
+				span := uint64(300)
+				if h >= e.V20 && h%144 == 0 {
+					span = 1500 // snapshot blocks: one payout and two history rows per holder
+				}
+				t := 1 + int((uint64(h)*2654435761>>5+uint64(seed)*7)%span)
+				if stmtN == t {
+					failedDB[h] = true
+					mu.Unlock()
+					r.Count("blocks_applied_twice_after_a_failure_in_mid_block", 1)
+					return vdriver.FailInstead, 0
+				}
+			}
+			mu.Unlock()
+			return vdriver.Proceed, 0
+		}
 		if !ev.InTx || ev.Kind != vdriver.KExec || !strings.HasPrefix(ev.SQL, "REPLACE INTO pn_metadata") || len(ev.Args) != 2 {
 			return vdriver.Proceed, 0
 		}
@@ -736,6 +788,7 @@ func installRetries(n *harness.Node, r *orch.Result, seed int64, e forge.Eras) f
 			r.Count("blocks_applied_twice_after_a_late_failure", 1)
 			return vdriver.FailInstead, 0
 		}
+		nextH = bs.Synced + 1
 		return vdriver.Proceed, 0
 	}})
 	return func() {
@@ -808,6 +861,7 @@ func modelRun(j *orch.Job, r *orch.Result) error {
 		tip = e.Pegnet + uint32(p.Upto)
 	}
 	retries := containsStr(p.Features, "retries")
+	retriesHistoryFocus = containsStr(p.Features, "history-faults")
 	restarts := containsStr(p.Features, "restarts")
 	apiPort := 0
 	var undoRetries func()
